@@ -1,3 +1,4 @@
+import Proofs.C16Pins
 import Proofs.C16Pass
 import Proofs.C16Bound
 import Proofs.C16Decl
@@ -260,3 +261,18 @@ example : Stack.run .reslice (fun c => 2 * c + 1) (Stack.init 2) exTrace = [6, 5
 example : Stack.run .reslice (fun c => 2 * c + 1) (Stack.init 100) exTrace = [6, 5, 7, 9, 3] := by decide
 
 end GoawkModel.C16
+
+/-! ## Pinned source text (regenerated tie; extract/pins.go, tools/repin.py)
+An edit of one of these functions in /repo breaks the matching obligation: the model below was written from the text
+in `Proofs.C16Pins` and has to be compared with the new text before it is re-pinned. -/
+namespace GoawkModel.Pins.C16
+theorem pin_resolve : Generated.C16Pins.resolve = Expected.resolve := rfl
+theorem pin_resolver_lookupVar : Generated.C16Pins.resolver_lookupVar = Expected.resolver_lookupVar := rfl
+theorem pin_resolver_recordVar : Generated.C16Pins.resolver_recordVar = Expected.resolver_recordVar := rfl
+theorem pin_callGraphVisitor_Visit : Generated.C16Pins.callGraphVisitor_Visit = Expected.callGraphVisitor_Visit := rfl
+theorem pin_mainVisitor_walkOrdered : Generated.C16Pins.mainVisitor_walkOrdered = Expected.mainVisitor_walkOrdered := rfl
+theorem pin_mainVisitor_Visit : Generated.C16Pins.mainVisitor_Visit = Expected.mainVisitor_Visit := rfl
+theorem pin_topoSort : Generated.C16Pins.topoSort = Expected.topoSort := rfl
+theorem pin_list : Generated.C16Pins.pinned = Expected.pinned := rfl
+end GoawkModel.Pins.C16
+-- end of pinned source text
